@@ -13,7 +13,7 @@ HARNESS = {"src": "harness/c01.cpp", "flags": ["-DFCPPT_HAVE_GCC_DEMANGLE"], "re
     "libs/options/src/options/option_name.cpp", "libs/options/src/options/option_name_comparison.cpp",
     "libs/core/src/io/read_chars.cpp", "libs/core/src/io/write_chars.cpp", "libs/core/src/insert_extract_locale.cpp",
     "libs/core/src/args.cpp", "libs/core/src/args_from_second.cpp", "libs/core/src/from_std_string.cpp",
-    "libs/core/src/getenv.cpp", "libs/core/src/error/strerror.cpp", "libs/core/src/exception.cpp",
+    "libs/core/src/getenv.cpp", "libs/core/src/system.cpp", "libs/core/src/to_std_string.cpp", "libs/core/src/error/strerror.cpp", "libs/core/src/exception.cpp",
     "libs/core/src/make_optional_error_code.cpp", "libs/core/src/time/gmtime.cpp", "libs/core/src/time/localtime.cpp",
     "libs/core/src/endianness/reverse_mem.cpp", "libs/core/src/type_name.cpp", "libs/core/src/type_name_from_info.cpp",
     "libs/filesystem/src/filesystem/file_size.cpp", "libs/filesystem/src/filesystem/remove_extension.cpp",
@@ -148,6 +148,10 @@ def batches(rng, tier):
         for k in ("fresh", "chunk1", "file", "throwend"):
             if ln <= 5:
                 ops += [f"readchars2 {k} s:{s} {a} {b}" for a in range(0, 7) for b in range(0, 7)]
+    # characters that collide with traits::eof() when narrowed: 0xff, and NUL
+    for k in ("fresh", "chunk1", "file", "throwend"):
+        ops += [f"{op} {k} {hx(w)}" for op in ("ioget", "iopeek") for w in ("\xff", "\xffa", "a\xff", "\x00", "\x00\xff", "\xff\xff", "\x80", "\x7f")]
+        ops += [f"sts {k} {hx(w)}" for w in ("\xff", "\x00", "a\x00b", "\xff\xfe")] + [f"readchars {k} {hx('a' + chr(0) + chr(255) + 'b')} {c}" for c in range(0, 6)]
     for k in ("nullbuf", "dir"):
         ops += [f"readchars {k} s: {cnt}" for cnt in range(0, 4)] + [f"sts {k} s:", f"ioget {k} s:", f"iopeek {k} s:"]
     ops += [f"readchars {k} s:abc {c}" for k in ("fresh", "file", "chunk1") for c in (4096, 65536, 1 << 20)]
@@ -221,10 +225,18 @@ def batches(rng, tier):
                                   "-9223372036854775809", "12,345,678", ",1", "1,", "a b", " ab", "ab "]
     for ty in ("int", "uint", "short", "ulong", "long", "string"):
         ops += [f"extract {ty} {hx(w)}" for w in texts]
+    ctexts = words("a 1\xff", 2) + ["\x80", "\x00", "\t", "\n", "\x0b", "\x0c", "\r", "ab", " a", "a ", "a\x00", "\x00a", "\x7f", "\xfe"]
+    for ty in ("char", "uchar", "schar"):
+        ops += [f"extract {ty} {hx(w)}" for w in ctexts]
+    for ty in ("int", "uint", "short", "long", "char", "uchar"):
+        for k in ("fresh", "eofbit", "failbit", "badbit", "chunk1", "file"):
+            ops += [f"ioextract {ty} {k} {hx(w)}" for w in ("", "7", " 7", "7 ", "-7", "+", "a", "99999999999", "32768", "-32769", "12ab", "\xff", "\x00", " ")]
+    ops += [f"system {k}" for k in ("exit0", "exit3", "exit255", "exit256", "true", "empty", "notfound", "kill", "term", "segv")]
     yield Batch("environment", ops, exhaustive=True,
                 note="getenv (set/empty/unset/malformed names, embedded NUL), args/args_from_second on exact-size argv arrays (argc 0..3/4), error::strerror on every "
                      "errno and the int limits, time::gmtime/localtime on the time_t lattice incl. the first value whose year overflows tm_year (documented "
-                     "runtime_error) and INT64 limits, type_name on well- and ill-formed mangled names, extract_from_string(_locale) values under a global locale that groups digits")
+                     "runtime_error) and INT64 limits, type_name on well- and ill-formed mangled names, extract_from_string(_locale) values (numbers, strings, character types) "
+                     "under a global locale that groups digits, io::extract on streams in every state, fcppt::system on commands that exit / are killed / do not exist")
     if os.environ.get("VERIF_C01_CANDIDATES"):
         # the defect candidate of notes/C01.md: extract_from_string under a changed global locale (model: the documented classic-locale behaviour)
         yield Batch("candidate-global-locale", [f"extractg {ty} {hx(w)}" for ty in ("int", "long") for w in ("1,000", "12,345,678", "1000")], exhaustive=True,
